@@ -269,14 +269,24 @@ Definition copy_cond (p : string) (c : conditional) : conditional :=
 
 Definition copy_ftype (p : string) (t : ftype) : ftype :=
   match t with FInt i => FInt (copy_int p i) | FArray a => FArray (copy_array p a) | FName n => FName n end.
-Definition copy_fvalue (p : string) (v : fvalue) : fvalue := match v with VCond c => VCond (copy_cond p c) | _ => v end.
-
 Definition copy_name (p n : string) : string := if oscmp value_eq_op (Some n) value_name then p else pfx field_sep p n.
+
+(* the value: a Conditional is copied with its link re-pointed; the target of a `sizeof` member (a member name, as the grammar
+   guarantees) follows the copied member it measures; constants are kept *)
+Definition is_size_reference (d : disposition) : bool := oscmp sizeof_op (disp_str d) sizeof_str.
+Definition copy_sizeof_target (p t : string) : string :=
+  if oscmp sizeof_value_eq_op (Some t) sizeof_value_name then p else pfx sizeof_sep p t.
+Definition copy_fvalue (p : string) (d : disposition) (v : fvalue) : fvalue :=
+  match v with
+  | VCond c => VCond (copy_cond p c)
+  | VName t => if is_size_reference d then VName (copy_sizeof_target p t) else v
+  | _ => v
+  end.
 
 (* StructField.copy (the copy has no comment) followed by the comment assignment of apply_inline_template *)
 Definition copy_field (p : string) (m : cmap) (f : field) : result field :=
   match f with
-  | Field n t v d a _ => Ok (Field (copy_name p n) (copy_ftype p t) (copy_fvalue p v) d a (member_comment m n))
+  | Field n t v d a _ => Ok (Field (copy_name p n) (copy_ftype p t) (copy_fvalue p d v) d a (member_comment m n))
   | InlinePlaceholder _ _ => Crash "AttributeError"
   end.
 
